@@ -103,15 +103,19 @@ def run(prog: Program, rep: Report, tier: str) -> None:
                 continue
             rep.check(o.value in (want, want2), "R12.2", f"{fname}: mask value", wheree,
                       f"{fname} encodes to {T.show(o.value)[:200]}; expected '{{:02x}}'.format(sum of bit_rep) - exactly two zero-padded hex digits of the bit sum", key=f"R12.2|{fname}|value")
-            pcs = o.state.pc
-            nonempty = any(g == ("truthy", arg) or g == ("cmp", ">", ("len", arg), c(0)) or g == ("cmp", "!=", ("len", arg), c(0)) for g in pcs)
+            pcs = F.flat_pc(list(o.state.pc))
+            # the path is impossible for an empty collection: some conjunct of its guard is false then
+            nonempty = any(F.guard_under(g, F.collection_facts(arg, True, None)) is False for g in pcs)
             rep.check(nonempty, "R12.2", f"{fname}: empty input rejected", wheree, f"{fname}: a mask is produced without testing that the collection is non-empty (guard {T.show(conj(pcs))[:160]})", key=f"R12.2|{fname}|empty")
             if fname == "sequence":
-                dedup = any(g[0] == "cmp" and g[1] == "==" and {g[2], g[3]} == {("len", arg), ("len", ("app", "set", arg))} for g in pcs)
+                # ... and impossible for a non-empty sequence that names a day twice
+                dedup = any(F.guard_under(g, F.collection_facts(arg, False, True)) is False for g in pcs)
                 rep.check(dedup, "R12.2", "sequence: duplicates rejected", wheree, f"a sequence is summed without the guard len(days) == len(set(days)): duplicates would add a bit twice (guard {T.show(conj(pcs))[:200]})", key="R12.2|sequence|dup")
         if not rets:
             rep.bad("R12.2", f"{fname}: accepted", wheree, f"no path accepts a non-empty {fname}", key=f"R12.2|{fname}|accept")
-        empties = [o for o in raises if any(g == ("not", ("truthy", arg)) for g in o.state.pc)]
+        # a raising path an empty collection can take (no conjunct false for it) and a non-empty duplicate-free one cannot
+        empties = [o for o in raises if not any(F.guard_under(g, F.collection_facts(arg, True, None)) is False for g in F.flat_pc(list(o.state.pc)))
+                   and any(F.guard_under(g, F.collection_facts(arg, False, False)) is False for g in F.flat_pc(list(o.state.pc)))]
         rep.check(bool(empties), "R12.2", f"{fname}: empty raises", wheree, f"no ValueError path for an empty {fname}", key=f"R12.2|{fname}|empty-raise")
 
     # ---- decoder
